@@ -21,6 +21,9 @@ FIXED = {
     ("C03", "global-reassigned-in-called-function"): ("ef16df5", "a value assigned to a global inside a called helper never reached sleep()/range()/device arguments"),
     ("C04", "rgb-fade-half-step"): ("835e628", "RGBLed.fade() rounded interpolation ties away from zero on the device, to even on the host"),
     ("C04", "motor-tiny-speed-mode"): ("5f68dcb", "DCMotor.get_mode() returned \"coast\" on the device for speeds below 1/510"),
+    ("C04", "motor-buzzer-query-stored-in-variable"): ("4310eca", "`m = motor.get_mode()` / `s = motor.get_speed()` declared an int variable (did not compile / truncated)"),
+    ("C15", "ultrasonic-zero-clock-sentinel"): ("59dd85b", "a measurement finishing while millis() read 0 disarmed the 60 ms trigger guard"),
+    ("C20", "core-pullup-sticky"): ("7f27a7a", "pin_mode(p, INPUT_PULLUP) then pin_mode(p, INPUT) left an unwritten pin reading HIGH"),
     ("C06", "helper-calls-later-helper"): ("71a113f", "a helper / handler calling a function defined later, or measuring a distance, did not compile (no prototypes)"),
     ("C06", "newline-in-string-literal"): ("c4cf51b", "a string literal containing a newline / carriage return did not compile"),
     ("C06", "string-literal-concatenation"): ("2191558", "`\"a\" + \"b\"` was emitted as the sum of two C literals and did not compile"),
